@@ -222,6 +222,11 @@ def check(pid, P, tier, seed):
             if s.get("status") == "undecided":
                 undecided.append("stand-in %s: %s" % (s["name"], s.get("detail", "")[:800]))
             for fl in s.get("failures", []):
+                cid = str(fl.get("case_id", ""))
+                if any(cid.startswith(px) for px in s.get("ignore_prefix", [])):
+                    # a failure of ANOTHER property (e.g. the commit hang, C08: not applicable to this technique)
+                    bounded[-1].setdefault("out_of_scope_failures", []).append({"case_id": cid, "what": fl.get("what", "")[:300]})
+                    continue
                 nat_viol.append((s, fl))
 
     # ---- violations -> replay files, counterexample search
